@@ -1,7 +1,11 @@
 #!/bin/sh
 # MANIFEST.setup_cmd: build the Lean development (models, lemmas, property theorems, driver library) from files on disk.
 set -e
-cd "$(dirname "$0")/lean"
+cd "$(dirname "$0")"
+# translators first: the Lean facts extracted from /repo's source (lean/PfModel/Generated) are regenerated from the tree as it is now
+for p in $(grep -l "^def pre_build" harness/props/c*.py | sed 's#.*/c\([0-9]*\)\.py#C\1#'); do ./check "$p" --translate || true; done
+cd lean
+# a module proved against regenerated facts may not build on a modified tree: that is for the check of that property to report, not for setup
 lake build 2>&1 | tail -5
 # warm the driver interpreter (first load of Lean.Data.Json is slow)
 echo '{"id":0,"m":"time","a":"00:10"}' | lake env lean --run Driver/C20.lean >/dev/null
